@@ -57,6 +57,13 @@ PROP = dict(
         'the Elias encoders zero their whole worst-case area before writing, '
         'so their byte extent is not measured (their return value is compared '
         'with ceil(totalBits/8) and the reference code lengths instead)',
+        'PFOR: which width the encoder chooses is its own business (percentile '
+        'range, marker-collision handling); the truth for width, marker and '
+        'exception count is the stored layout [min][width][count][values]'
+        '[exception count][(index, value)...], which must end exactly at the '
+        'encoder\'s return value; an encoder returning 0 for an in-domain '
+        'array is reported as a violation (no allocation failures are '
+        'injected)',
         'BP128 delta formats with a single value have no block: '
         'lastBlockSize is not compared there',
         'walking compares each re-found record with its own first decode, not '
